@@ -12,5 +12,6 @@
 //@include inc/compact_spec.rs
 //@include inc/maximal_spec.rs
 //@include inc/compact_refines.rs
+//@include inc/canonical_spec.rs
 //@include inc/compact_fns.rs
 fn main() {}
